@@ -342,4 +342,883 @@ theorem transpose_law (xd yd : Nat) (es : List Elite) (b0 b1 : List Rat) (lo hi 
   intro c hc
   rw [key r c (List.mem_range.mp hr) (List.mem_range.mp hc)]
 
+/-! ## T20.3 1-D CVT heat-map: sorting, inverse permutation, cell edges, cell colours -/
+
+theorem insertBy_perm (p : Rat × Nat) (l : List (Rat × Nat)) : (insertBy p l).Perm (p :: l) := by
+  induction l with
+  | nil => simp [insertBy]
+  | cons q qs ih =>
+    simp only [insertBy]
+    split
+    · exact List.Perm.refl _
+    · exact (List.Perm.cons q ih).trans (List.Perm.swap p q qs)
+
+theorem isort_perm (l : List (Rat × Nat)) : (isort l).Perm l := by
+  induction l with
+  | nil => exact List.Perm.refl _
+  | cons p ps ih =>
+    simp only [isort]
+    exact (insertBy_perm p _).trans (List.Perm.cons p ih)
+
+theorem withIdx_snd (k : Nat) (cs : List Rat) :
+    (withIdx k cs).map (·.2) = List.range' k cs.length := by
+  induction cs generalizing k with
+  | nil => simp [withIdx]
+  | cons c cs ih => simp [withIdx, ih, List.range'_succ]
+
+theorem withIdx_fst (k : Nat) (cs : List Rat) : (withIdx k cs).map (·.1) = cs := by
+  induction cs generalizing k with
+  | nil => simp [withIdx]
+  | cons c cs ih => simp [withIdx, ih]
+
+/-- T20.3 `sortIdx` (= `np.argsort(centroids)`) is a permutation of the centroid indices -/
+theorem sortIdx_perm (cs : List Rat) : (sortIdx cs).Perm (List.range cs.length) := by
+  unfold sortIdx sortPairs
+  rw [List.range_eq_range', ← withIdx_snd 0 cs]
+  exact (isort_perm _).map _
+
+theorem sortedCentroids_perm (cs : List Rat) : (sortedCentroids cs).Perm cs := by
+  unfold sortedCentroids sortPairs
+  have h := (isort_perm (withIdx 0 cs)).map (·.1)
+  rwa [withIdx_fst] at h
+
+theorem sortIdx_nodup (cs : List Rat) : (sortIdx cs).Nodup :=
+  (sortIdx_perm cs).nodup_iff.mpr List.nodup_range
+
+theorem sortIdx_length (cs : List Rat) : (sortIdx cs).length = cs.length := by
+  rw [(sortIdx_perm cs).length_eq, List.length_range]
+
+theorem invFrom_not_mem (i : Nat) (xs : List Nat) (f : Nat → Nat) (y : Nat) (h : y ∉ xs) :
+    invFrom i xs f y = f y := by
+  induction xs generalizing i f with
+  | nil => rfl
+  | cons x xs ih =>
+    simp only [invFrom]
+    rw [ih _ _ (fun hm => h (List.mem_cons_of_mem _ hm))]
+    have : y ≠ x := fun hyx => h (by simp [hyx])
+    simp [this]
+
+theorem invFrom_getElem (i : Nat) (xs : List Nat) (f : Nat → Nat) (hn : xs.Nodup) (p x : Nat)
+    (hp : xs[p]? = some x) : invFrom i xs f x = i + p := by
+  induction xs generalizing i f p with
+  | nil => simp at hp
+  | cons y ys ih =>
+    have hn' := List.nodup_cons.mp hn
+    simp only [invFrom]
+    cases p with
+    | zero =>
+      simp only [List.getElem?_cons_zero, Option.some.injEq] at hp
+      subst hp
+      rw [invFrom_not_mem _ _ _ _ hn'.1]
+      simp
+    | succ p =>
+      simp only [List.getElem?_cons_succ] at hp
+      rw [ih (i + 1) _ hn'.2 p hp]
+      omega
+
+/-- T20.3 `inv ∘ sortIdx = id`: the inverse index sends the centroid at sorted position `p`
+back to `p` -/
+theorem inv_sortIdx (cs : List Rat) (p x : Nat) (hp : (sortIdx cs)[p]? = some x) :
+    invIdx (sortIdx cs) x = p := by
+  unfold invIdx
+  rw [invFrom_getElem 0 _ _ (sortIdx_nodup cs) p x hp]
+  omega
+
+/-- T20.3 `sortIdx ∘ inv = id` on the centroid indices -/
+theorem sortIdx_inv (cs : List Rat) (x : Nat) (hx : x < cs.length) :
+    (sortIdx cs)[invIdx (sortIdx cs) x]? = some x := by
+  have hmem : x ∈ sortIdx cs := (sortIdx_perm cs).mem_iff.mpr (List.mem_range.mpr hx)
+  obtain ⟨p, hp⟩ := List.mem_iff_getElem?.mp hmem
+  rw [inv_sortIdx cs p x hp]
+  exact hp
+
+theorem insertBy_sorted (p : Rat × Nat) (l : List (Rat × Nat))
+    (h : l.Pairwise (fun a b => a.1 ≤ b.1)) : (insertBy p l).Pairwise (fun a b => a.1 ≤ b.1) := by
+  induction l with
+  | nil => simp [insertBy]
+  | cons q qs ih =>
+    have hq := List.pairwise_cons.mp h
+    simp only [insertBy]
+    split
+    · rename_i hle
+      refine List.pairwise_cons.mpr ⟨?_, h⟩
+      intro b hb
+      rcases List.mem_cons.mp hb with rfl | hb'
+      · exact hle
+      · exact le_trans hle (hq.1 b hb')
+    · rename_i hnle
+      refine List.pairwise_cons.mpr ⟨?_, ih hq.2⟩
+      intro b hb
+      have hb2 := (insertBy_perm p qs).mem_iff.mp hb
+      rcases List.mem_cons.mp hb2 with rfl | hb'
+      · exact le_of_lt (not_le.mp hnle)
+      · exact hq.1 b hb'
+
+theorem isort_sorted (l : List (Rat × Nat)) : (isort l).Pairwise (fun a b => a.1 ≤ b.1) := by
+  induction l with
+  | nil => simp [isort]
+  | cons p ps ih => simp only [isort]; exact insertBy_sorted p _ ih
+
+/-- T20.3 the sorted centroids are non-decreasing -/
+theorem sorted_nondecreasing (cs : List Rat) : (sortedCentroids cs).Pairwise (· ≤ ·) := by
+  unfold sortedCentroids sortPairs
+  exact List.pairwise_map.mpr (isort_sorted _)
+
+theorem mem_withIdx (k : Nat) (cs : List Rat) (q : Rat × Nat) (h : q ∈ withIdx k cs) :
+    k ≤ q.2 ∧ cs[q.2 - k]? = some q.1 := by
+  induction cs generalizing k with
+  | nil => simp [withIdx] at h
+  | cons c cs ih =>
+    simp only [withIdx, List.mem_cons] at h
+    rcases h with rfl | h
+    · simp
+    · obtain ⟨h1, h2⟩ := ih (k + 1) h
+      refine ⟨by omega, ?_⟩
+      have : q.2 - k = (q.2 - (k + 1)) + 1 := by omega
+      rw [this, List.getElem?_cons_succ]
+      exact h2
+
+/-- T20.3 the value at sorted position `p` is the centroid with index `sortIdx[p]`
+(`sorted_centroids_1d = centroids_1d[centroid_sort_idx]`) -/
+theorem sorted_is_centroid (cs : List Rat) (p : Nat) (v : Rat) (i : Nat)
+    (hv : (sortedCentroids cs)[p]? = some v) (hi : (sortIdx cs)[p]? = some i) : cs[i]? = some v := by
+  unfold sortedCentroids at hv
+  unfold sortIdx at hi
+  rw [List.getElem?_map] at hv hi
+  cases hq : (sortPairs cs)[p]? with
+  | none => simp [hq] at hv
+  | some q =>
+    simp only [hq, Option.map_some, Option.some.injEq] at hv hi
+    have hmem : q ∈ sortPairs cs := List.mem_of_getElem? hq
+    have hmem2 := (isort_perm _).mem_iff.mp hmem
+    have h3 := (mem_withIdx 0 cs q hmem2).2
+    rw [← hv, ← hi]
+    simpa using h3
+
+theorem midpoints_getElem (s : List Rat) (q : Nat) (a b : Rat) (ha : s[q]? = some a)
+    (hb : s[q + 1]? = some b) : (midpoints s)[q]? = some ((a + b) / 2) := by
+  induction s generalizing q with
+  | nil => simp at ha
+  | cons x xs ih =>
+    cases xs with
+    | nil => simp at hb
+    | cons y ys =>
+      simp only [midpoints]
+      cases q with
+      | zero =>
+        simp only [List.getElem?_cons_zero, List.getElem?_cons_succ, Option.some.injEq] at ha hb
+        simp [ha, hb]
+      | succ q =>
+        simp only [List.getElem?_cons_succ] at ha hb ⊢
+        exact ih q ha hb
+
+theorem midpoints_length (s : List Rat) : (midpoints s).length = s.length - 1 := by
+  induction s with
+  | nil => rfl
+  | cons x xs ih =>
+    cases xs with
+    | nil => rfl
+    | cons y ys =>
+      simp only [midpoints, List.length_cons] at ih ⊢
+      omega
+
+theorem getElem?_lt {α : Type} (l : List α) (i : Nat) (a : α) (h : l[i]? = some a) : i < l.length := by
+  by_contra hcon
+  rw [List.getElem?_eq_none (Nat.le_of_not_lt hcon)] at h
+  exact absurd h (by simp)
+
+/-- T20.3 `cvt1d_cell_span`: the cell edges are the lower bound, the midpoints of neighbouring
+sorted centroids, and the upper bound: drawn cell `p` spans
+`[mid(s[p-1], s[p]), mid(s[p], s[p+1])]` (with the archive bounds at the two ends) -/
+theorem cvt1d_cell_span (lo hi : Rat) (cs : List Rat) :
+    (cvtEdges lo hi cs)[0]? = some lo ∧
+    (∀ q a b, (sortedCentroids cs)[q]? = some a → (sortedCentroids cs)[q + 1]? = some b →
+      (cvtEdges lo hi cs)[q + 1]? = some ((a + b) / 2)) ∧
+    (cs ≠ [] → (cvtEdges lo hi cs)[cs.length]? = some hi) ∧
+    (cs ≠ [] → (cvtEdges lo hi cs).length = cs.length + 1) := by
+  have hlen : (sortedCentroids cs).length = cs.length := (sortedCentroids_perm cs).length_eq
+  refine ⟨by simp [cvtEdges], ?_, ?_, ?_⟩
+  · intro q a b ha hb
+    have hm := midpoints_getElem _ q a b ha hb
+    simp only [cvtEdges, List.getElem?_cons_succ]
+    rw [List.getElem?_append_left (getElem?_lt _ _ _ hm)]
+    exact hm
+  · intro hne
+    have hpos : 0 < cs.length := List.length_pos_iff.mpr hne
+    obtain ⟨n, hn⟩ : ∃ n, cs.length = n + 1 := ⟨cs.length - 1, by omega⟩
+    rw [hn]
+    simp only [cvtEdges, List.getElem?_cons_succ]
+    have hml : (midpoints (sortedCentroids cs)).length = n := by
+      rw [midpoints_length, hlen, hn]; omega
+    rw [List.getElem?_append_right (by omega), hml]
+    simp
+  · intro hne
+    have hpos : 0 < cs.length := List.length_pos_iff.mpr hne
+    simp only [cvtEdges, List.length_cons, List.length_append, midpoints_length, hlen, List.length_nil]
+    omega
+
+theorem pairwise_getElem? (s : List Rat) (h : s.Pairwise (· ≤ ·)) (i j : Nat) (a b : Rat)
+    (ha : s[i]? = some a) (hb : s[j]? = some b) (hij : i < j) : a ≤ b := by
+  have hi := getElem?_lt _ _ _ ha
+  have hj := getElem?_lt _ _ _ hb
+  have := (List.pairwise_iff_getElem.mp h) i j hi hj hij
+  rw [List.getElem?_eq_getElem hi] at ha
+  rw [List.getElem?_eq_getElem hj] at hb
+  simp only [Option.some.injEq] at ha hb
+  rw [← ha, ← hb]
+  exact this
+
+/-- T20.3 `cvt1d_cell_contains`: drawn cell `p` contains the `p`-th smallest centroid
+(centroids inside the archive bounds) -/
+theorem cvt1d_cell_contains (lo hi : Rat) (cs : List Rat) (hb : ∀ c ∈ cs, lo ≤ c ∧ c ≤ hi)
+    (p : Nat) (x : Rat) (hx : (sortedCentroids cs)[p]? = some x) :
+    ∃ l r, (cvtEdges lo hi cs)[p]? = some l ∧ (cvtEdges lo hi cs)[p + 1]? = some r ∧
+      l ≤ x ∧ x ≤ r := by
+  have hlen : (sortedCentroids cs).length = cs.length := (sortedCentroids_perm cs).length_eq
+  have hp : p < cs.length := hlen ▸ getElem?_lt _ _ _ hx
+  have hne : cs ≠ [] := by intro h; simp [h] at hp
+  have hxb := hb x ((sortedCentroids_perm cs).mem_iff.mp (List.mem_of_getElem? hx))
+  obtain ⟨h0, hmid, hlast, _⟩ := cvt1d_cell_span lo hi cs
+  have hs := sorted_nondecreasing cs
+  -- left edge
+  have hleft : ∃ l, (cvtEdges lo hi cs)[p]? = some l ∧ l ≤ x := by
+    cases p with
+    | zero => exact ⟨lo, h0, hxb.1⟩
+    | succ q =>
+      have hq : q < (sortedCentroids cs).length := by omega
+      have ha : (sortedCentroids cs)[q]? = some (sortedCentroids cs)[q] := List.getElem?_eq_getElem hq
+      have hle := pairwise_getElem? _ hs q (q + 1) _ _ ha hx (by omega)
+      refine ⟨_, hmid q _ x ha hx, ?_⟩
+      linarith
+  -- right edge
+  have hright : ∃ r, (cvtEdges lo hi cs)[p + 1]? = some r ∧ x ≤ r := by
+    by_cases hend : p + 1 = cs.length
+    · rw [hend]; exact ⟨hi, hlast hne, hxb.2⟩
+    · have hq : p + 1 < (sortedCentroids cs).length := by omega
+      have hb' : (sortedCentroids cs)[p + 1]? = some (sortedCentroids cs)[p + 1] :=
+        List.getElem?_eq_getElem hq
+      have hle := pairwise_getElem? _ hs p (p + 1) _ _ hx hb' (by omega)
+      refine ⟨_, hmid p x _ hx hb', ?_⟩
+      linarith
+  obtain ⟨l, hl, hlx⟩ := hleft
+  obtain ⟨r, hr, hxr⟩ := hright
+  exact ⟨l, r, hl, hr, hlx, hxr⟩
+
+/-- T20.3 `cvt1d_cell_colour`: drawn cell `p` shows the objective of the elite stored at
+centroid index `sortIdx[p]` (blank when that cell is empty) -/
+theorem cvt1d_cell_colour (cs : List Rat) (es : List Elite) (hd : Distinct es)
+    (hr : ∀ e ∈ es, e.index < cs.length) (p i : Nat) (hi : (sortIdx cs)[p]? = some i) :
+    (cvt1dColors cs es)[p]? = some (cellObj es i) := by
+  have hp : p < cs.length := sortIdx_length cs ▸ getElem?_lt _ _ _ hi
+  unfold cvt1dColors
+  rw [List.getElem?_map, getElem?_range_if]
+  simp only [hp, if_true, Option.map_some]
+  rw [fillCells_eq]
+  congr 1
+  apply lastBy_eq_cellObj _ _ _ hd
+  intro e he
+  rw [decide_eq_true_iff]
+  constructor
+  · intro hpe
+    have h1 := sortIdx_inv cs e.index (hr e he)
+    rw [← hpe, hi] at h1
+    exact (Option.some.inj h1).symm
+  · intro hei
+    rw [hei, inv_sortIdx cs p i hi]
+
+/-! ## T20.4 scatter plots: marker positions and colours -/
+
+theorem allSome_eq_some {α : Type} (xs : List (Option α)) (ys : List α)
+    (h : allSome xs = some ys) : xs = ys.map some := by
+  induction xs generalizing ys with
+  | nil =>
+    simp only [allSome, Option.some.injEq] at h
+    subst h; rfl
+  | cons x xs ih =>
+    cases x with
+    | none => simp [allSome] at h
+    | some a =>
+      simp only [allSome] at h
+      cases hx : allSome xs with
+      | none => simp [hx] at h
+      | some zs =>
+        simp only [hx, Option.map_some, Option.some.injEq] at h
+        subst h
+        simp [ih zs hx]
+
+theorem allSome_map {α β : Type} (f : α → β) (xs : List (Option α)) :
+    allSome (xs.map (Option.map f)) = (allSome xs).map (List.map f) := by
+  induction xs with
+  | nil => simp [allSome]
+  | cons x xs ih =>
+    cases x with
+    | none => simp [allSome]
+    | some a =>
+      simp only [List.map_cons, Option.map_some, allSome, ih]
+      cases allSome xs <;> simp
+
+theorem getElem?_of_map_some {α : Type} (xs : List (Option α)) (ys : List α)
+    (h : xs = ys.map some) (k : Nat) (a : α) (hk : xs[k]? = some (some a)) : ys[k]? = some a := by
+  subst h
+  rw [List.getElem?_map] at hk
+  cases hy : ys[k]? with
+  | none => simp [hy] at hk
+  | some b => simp only [hy, Option.map_some, Option.some.injEq] at hk; rw [hk]
+
+/-- T20.4 `scatter_law`: one marker per row of `data()`, in `data()` order; marker `k` sits at
+the measures of elite `k` (axes swapped when transposed) and its colour value is that elite's
+objective; the colour limits are those of the stored objectives -/
+theorem scatter_law (es : List Elite) (tr : Bool) (vmin vmax : Option Rat) (s : Scatter)
+    (h : scatter es tr vmin vmax = .ok s) :
+    s.offsets.length = es.length ∧ s.colors = es.map (·.obj) ∧
+    clim (es.map (·.obj)) vmin vmax = .ok s.clim ∧
+    ∀ (k : Nat) (e : Elite), es[k]? = some e → ∃ x y, e.meas = [x, y] ∧
+      s.offsets[k]? = some (if tr then (y, x) else (x, y)) ∧ s.colors[k]? = some e.obj := by
+  unfold scatter at h
+  cases hA : allSome (es.map (scatterPt tr)) with
+  | none => simp [hA] at h
+  | some pts =>
+    simp only [hA] at h
+    cases hc : clim (es.map (·.obj)) vmin vmax with
+    | error e => simp [hc] at h
+    | ok cl =>
+      simp only [hc, Except.ok.injEq] at h
+      subst h
+      have hmap := allSome_eq_some _ _ hA
+      refine ⟨?_, rfl, rfl, ?_⟩
+      · have := congrArg List.length hmap
+        simpa using this.symm
+      · intro k e hk
+        have hk' : (es.map (scatterPt tr))[k]? = some (scatterPt tr e) := by
+          rw [List.getElem?_map, hk]; rfl
+        cases hpt : scatterPt tr e with
+        | none =>
+          rw [hmap, List.getElem?_map, hpt] at hk'
+          cases hy : pts[k]? <;> simp [hy] at hk'
+        | some pt =>
+          rw [hpt] at hk'
+          have hoff := getElem?_of_map_some _ _ hmap k pt hk'
+          unfold scatterPt at hpt
+          split at hpt
+          · rename_i x y hxy
+            simp only [Option.some.injEq] at hpt
+            exact ⟨x, y, hxy, by rw [hoff, hpt], by simp [hk]⟩
+          · simp at hpt
+
+theorem scatterPt_swap (e : Elite) : scatterPt true e = (scatterPt false e).map Prod.swap := by
+  unfold scatterPt
+  split <;> simp
+
+/-- T20.4 `scatter_transpose`: `transpose_measures=True` swaps the two coordinates of every
+marker and changes nothing else -/
+theorem scatter_transpose (es : List Elite) (vmin vmax : Option Rat) (s : Scatter)
+    (h : scatter es false vmin vmax = .ok s) :
+    scatter es true vmin vmax = .ok ⟨s.offsets.map Prod.swap, s.colors, s.clim⟩ := by
+  unfold scatter at h ⊢
+  have hm : es.map (scatterPt true) = (es.map (scatterPt false)).map (Option.map Prod.swap) := by
+    simp [scatterPt_swap]
+  rw [hm, allSome_map]
+  cases hA : allSome (es.map (scatterPt false)) with
+  | none => simp [hA] at h
+  | some pts =>
+    simp only [hA] at h
+    cases hc : clim (es.map (·.obj)) vmin vmax with
+    | error e => simp [hc] at h
+    | ok cl =>
+      simp only [hc, Except.ok.injEq] at h
+      subst h
+      simp
+
+/-- T20.4 boundary lines: vertical lines stand at the boundaries of the dimension drawn along
+x and span the bounds of the dimension drawn along y; horizontal lines the other way round;
+transposing swaps the roles of the two dimensions -/
+theorem boundaryLines_law (b0 b1 : List Rat) (lo hi : Rat × Rat) :
+    boundaryLines b0 b1 lo hi false = ⟨b0, (lo.2, hi.2), b1, (lo.1, hi.1)⟩ ∧
+    boundaryLines b0 b1 lo hi true = ⟨b1, (lo.1, hi.1), b0, (lo.2, hi.2)⟩ := ⟨rfl, rfl⟩
+
+/-! ## T20.5 parallel axes plot -/
+
+theorem axisFrac_lo (lo hi : Rat) : axisFrac lo hi lo = 0 := by simp [axisFrac]
+
+theorem axisFrac_hi (lo hi : Rat) (h : lo ≠ hi) : axisFrac lo hi hi = 1 := by
+  unfold axisFrac
+  exact div_self (sub_ne_zero.mpr (Ne.symm h))
+
+theorem axisFrac_mono (lo hi m m' : Rat) (h : lo < hi) (hm : m ≤ m') :
+    axisFrac lo hi m ≤ axisFrac lo hi m' := by
+  unfold axisFrac
+  exact div_le_div_of_nonneg_right (by linarith) (by linarith)
+
+theorem normRest_getElem (lo0 hi0 : Rat) (los his ys : List Rat) (k : Nat) (lo hi y : Rat)
+    (hl : los[k]? = some lo) (hh : his[k]? = some hi) (hy : ys[k]? = some y) :
+    (normRest lo0 hi0 los his ys)[k]? = some ((y - lo) / (hi - lo) * (hi0 - lo0) + lo0) := by
+  induction los generalizing his ys k with
+  | nil => simp at hl
+  | cons l ls ih =>
+    cases his with
+    | nil => simp at hh
+    | cons h hs =>
+      cases ys with
+      | nil => simp at hy
+      | cons z zs =>
+        simp only [normRest]
+        cases k with
+        | zero =>
+          simp only [List.getElem?_cons_zero, Option.some.injEq] at hl hh hy
+          simp [hl, hh, hy]
+        | succ k =>
+          simp only [List.getElem?_cons_succ] at hl hh hy ⊢
+          exact ih hs zs k hl hh hy
+
+/-- T20.5 `normYs_frac`: on every axis `k` the drawn point sits at the relative height
+`(m_k - lo_k) / (hi_k - lo_k)` of the host axis, i.e. where axis `k` (whose limits are
+`lo_k, hi_k`) shows the value `m_k` -/
+theorem normYs_frac (los his ys : List Rat) (lo0 hi0 : Rat) (h0l : los[0]? = some lo0)
+    (h0h : his[0]? = some hi0) (hne : lo0 ≠ hi0) (k : Nat) (lo hi y : Rat)
+    (hl : los[k]? = some lo) (hh : his[k]? = some hi) (hy : ys[k]? = some y) :
+    ∃ y', (normYs los his ys)[k]? = some y' ∧ axisFrac lo0 hi0 y' = axisFrac lo hi y := by
+  cases los with
+  | nil => simp at hl
+  | cons l ls =>
+    cases his with
+    | nil => simp at hh
+    | cons h hs =>
+      cases ys with
+      | nil => simp at hy
+      | cons z zs =>
+        simp only [List.getElem?_cons_zero, Option.some.injEq] at h0l h0h
+        subst h0l h0h
+        simp only [normYs]
+        cases k with
+        | zero =>
+          simp only [List.getElem?_cons_zero, Option.some.injEq] at hl hh hy ⊢
+          subst hl hh hy
+          exact ⟨_, rfl, rfl⟩
+        | succ k =>
+          simp only [List.getElem?_cons_succ] at hl hh hy ⊢
+          refine ⟨_, normRest_getElem _ _ _ _ _ k lo hi y hl hh hy, ?_⟩
+          have hd : h - l ≠ 0 := sub_ne_zero.mpr (Ne.symm hne)
+          unfold axisFrac
+          rw [add_sub_cancel_right, mul_div_assoc, div_self hd, mul_one]
+
+theorem insertObj_perm (e : Elite) (l : List Elite) : (insertObj e l).Perm (e :: l) := by
+  induction l with
+  | nil => simp [insertObj]
+  | cons f fs ih =>
+    simp only [insertObj]
+    split
+    · exact List.Perm.refl _
+    · exact (List.Perm.cons f ih).trans (List.Perm.swap e f fs)
+
+/-- `sort_archive=True` draws the same elites -/
+theorem sortByObj_perm (es : List Elite) : (sortByObj es).Perm es := by
+  induction es with
+  | nil => exact List.Perm.refl _
+  | cons e es ih =>
+    simp only [sortByObj]
+    exact (insertObj_perm e _).trans (List.Perm.cons e ih)
+
+theorem insertObj_sorted (e : Elite) (l : List Elite)
+    (h : l.Pairwise (fun a b => a.obj ≤ b.obj)) : (insertObj e l).Pairwise (fun a b => a.obj ≤ b.obj) := by
+  induction l with
+  | nil => simp [insertObj]
+  | cons f fs ih =>
+    have hq := List.pairwise_cons.mp h
+    simp only [insertObj]
+    split
+    · rename_i hle
+      refine List.pairwise_cons.mpr ⟨?_, h⟩
+      intro b hb
+      rcases List.mem_cons.mp hb with rfl | hb'
+      · exact hle
+      · exact le_trans hle (hq.1 b hb')
+    · rename_i hnle
+      refine List.pairwise_cons.mpr ⟨?_, ih hq.2⟩
+      intro b hb
+      have hb2 := (insertObj_perm e fs).mem_iff.mp hb
+      rcases List.mem_cons.mp hb2 with rfl | hb'
+      · exact le_of_lt (not_le.mp hnle)
+      · exact hq.1 b hb'
+
+/-- … in non-decreasing order of objective (better elites are drawn later, i.e. on top) -/
+theorem sortByObj_sorted (es : List Elite) : (sortByObj es).Pairwise (fun a b => a.obj ≤ b.obj) := by
+  induction es with
+  | nil => simp [sortByObj]
+  | cons e es ih => simp only [sortByObj]; exact insertObj_sorted e _ ih
+
+/-- T20.5 `parallel_lines`: one poly-line per stored elite (in `data()` order, or sorted by
+objective), whose y data is the per-axis normalisation of that elite's selected measures and
+whose colour position is the normalised objective of the same elite -/
+theorem parallel_lines (los his : List Rat) (order : Option (List Int)) (es : List Elite)
+    (sort : Bool) (vmin vmax : Option Rat) (lines : List ParLine) (cl : Rat × Rat)
+    (h : parallelPlot los his order es sort vmin vmax = .ok (lines, cl)) :
+    ∃ cols l hh, pick los cols = some l ∧ pick his cols = some hh ∧
+      (order = none → cols = List.range los.length) ∧
+      clim (es.map (·.obj)) vmin vmax = .ok cl ∧
+      lines.length = es.length ∧
+      ∀ (k : Nat) (e : Elite), (if sort then sortByObj es else es)[k]? = some e →
+        ∃ ys, pick e.meas cols = some ys ∧
+          lines[k]? = some ⟨e.obj, normClip cl.1 cl.2 e.obj, normYs l hh ys⟩ := by
+  unfold parallelPlot at h
+  simp only at h
+  split at h
+  · simp at h
+  · rename_i cols hcols
+    cases hc : clim (es.map (·.obj)) vmin vmax with
+    | error e => simp [hc] at h
+    | ok cl' =>
+      obtain ⟨lo, hi⟩ := cl'
+      simp only [hc] at h
+      cases hl : pick los cols with
+      | none => simp [hl] at h
+      | some l =>
+        cases hh : pick his cols with
+        | none => simp [hl, hh] at h
+        | some hv =>
+          simp only [hl, hh] at h
+          split at h
+          · rename_i lines' hlines
+            simp only [Except.ok.injEq, Prod.mk.injEq] at h
+            obtain ⟨rfl, rfl⟩ := h
+            have hmap := allSome_eq_some _ _ hlines
+            refine ⟨cols, l, hv, hl, hh, ?_, rfl, ?_, ?_⟩
+            · intro hnone
+              subst hnone
+              simp only [Option.some.injEq] at hcols
+              exact hcols.symm
+            · have hlen := congrArg List.length hmap
+              simp only [List.length_map] at hlen
+              rw [← hlen]
+              cases sort
+              · simp
+              · simp [(sortByObj_perm es).length_eq]
+            · intro k e hk
+              have hk' : (List.map (fun e => (pick e.meas cols).map
+                    (fun ys => (⟨e.obj, normClip lo hi e.obj, normYs l hv ys⟩ : ParLine)))
+                    (if sort = true then sortByObj es else es))[k]?
+                  = some ((pick e.meas cols).map
+                    (fun ys => (⟨e.obj, normClip lo hi e.obj, normYs l hv ys⟩ : ParLine))) := by
+                rw [List.getElem?_map, hk]; rfl
+              cases hp : pick e.meas cols with
+              | none =>
+                rw [hmap, List.getElem?_map, hp] at hk'
+                cases hy : lines'[k]? <;> simp [hy] at hk'
+              | some ys =>
+                rw [hp] at hk'
+                exact ⟨ys, rfl, getElem?_of_map_some _ _ hmap k _ hk'⟩
+          · simp at h
+
+/-! ## T20.6 colour limits -/
+
+theorem minL_spec (xs : List Rat) (m : Rat) (h : minL xs = some m) :
+    m ∈ xs ∧ ∀ x ∈ xs, m ≤ x := by
+  induction xs generalizing m with
+  | nil => simp [minL] at h
+  | cons x xs ih =>
+    simp only [minL] at h
+    cases hm : minL xs with
+    | none =>
+      simp only [hm, Option.some.injEq] at h
+      subst h
+      cases xs with
+      | nil => simp
+      | cons y ys =>
+        simp only [minL] at hm
+        cases h2 : minL ys <;> simp [h2] at hm
+    | some m' =>
+      simp only [hm, Option.some.injEq] at h
+      obtain ⟨hmem, hle⟩ := ih m' hm
+      by_cases hx : x ≤ m'
+      · simp only [hx, if_true] at h
+        subst h
+        refine ⟨by simp, ?_⟩
+        intro y hy
+        rcases List.mem_cons.mp hy with rfl | hy'
+        · exact le_refl _
+        · exact le_trans hx (hle y hy')
+      · simp only [hx, if_false] at h
+        subst h
+        refine ⟨List.mem_cons_of_mem _ hmem, ?_⟩
+        intro y hy
+        rcases List.mem_cons.mp hy with rfl | hy'
+        · exact le_of_lt (not_le.mp hx)
+        · exact hle y hy'
+
+theorem maxL_spec (xs : List Rat) (m : Rat) (h : maxL xs = some m) :
+    m ∈ xs ∧ ∀ x ∈ xs, x ≤ m := by
+  induction xs generalizing m with
+  | nil => simp [maxL] at h
+  | cons x xs ih =>
+    simp only [maxL] at h
+    cases hm : maxL xs with
+    | none =>
+      simp only [hm, Option.some.injEq] at h
+      subst h
+      cases xs with
+      | nil => simp
+      | cons y ys =>
+        simp only [maxL] at hm
+        cases h2 : maxL ys <;> simp [h2] at hm
+    | some m' =>
+      simp only [hm, Option.some.injEq] at h
+      obtain ⟨hmem, hle⟩ := ih m' hm
+      by_cases hx : m' ≤ x
+      · simp only [hx, if_true] at h
+        subst h
+        refine ⟨by simp, ?_⟩
+        intro y hy
+        rcases List.mem_cons.mp hy with rfl | hy'
+        · exact le_refl _
+        · exact le_trans (hle y hy') hx
+      · simp only [hx, if_false] at h
+        subst h
+        refine ⟨List.mem_cons_of_mem _ hmem, ?_⟩
+        intro y hy
+        rcases List.mem_cons.mp hy with rfl | hy'
+        · exact le_of_lt (not_le.mp hx)
+        · exact hle y hy'
+
+theorem minL_isSome (xs : List Rat) (h : xs ≠ []) : ∃ m, minL xs = some m := by
+  cases xs with
+  | nil => exact absurd rfl h
+  | cons x xs => simp only [minL]; cases minL xs <;> simp
+
+theorem maxL_isSome (xs : List Rat) (h : xs ≠ []) : ∃ m, maxL xs = some m := by
+  cases xs with
+  | nil => exact absurd rfl h
+  | cons x xs => simp only [maxL]; cases maxL xs <;> simp
+
+theorem clim_default (objs : List Rat) (lo hi : Rat) (h : clim objs none none = .ok (lo, hi)) :
+    minL objs = some lo ∧ maxL objs = some hi := by
+  unfold clim at h
+  cases h1 : minL objs <;> cases h2 : maxL objs <;> simp_all
+
+/-- T20.6 `clim_contains`: the default colour limits contain every stored objective -/
+theorem clim_contains (objs : List Rat) (lo hi : Rat) (h : clim objs none none = .ok (lo, hi)) :
+    ∀ o ∈ objs, lo ≤ o ∧ o ≤ hi := by
+  obtain ⟨h1, h2⟩ := clim_default objs lo hi h
+  intro o ho
+  exact ⟨(minL_spec objs lo h1).2 o ho, (maxL_spec objs hi h2).2 o ho⟩
+
+/-- T20.6 `clim_attained`: with at least one stored objective the default limits exist and are
+attained: they are exactly the range (min, max) of the stored objectives -/
+theorem clim_attained (objs : List Rat) (hne : objs ≠ []) :
+    ∃ lo hi, clim objs none none = .ok (lo, hi) ∧ lo ∈ objs ∧ hi ∈ objs := by
+  obtain ⟨lo, hlo⟩ := minL_isSome objs hne
+  obtain ⟨hi, hhi⟩ := maxL_isSome objs hne
+  refine ⟨lo, hi, ?_, (minL_spec objs lo hlo).1, (maxL_spec objs hi hhi).1⟩
+  simp [clim, hlo, hhi]
+
+/-- explicit limits are used as given; a one-sided explicit limit leaves the other at the
+extreme stored objective -/
+theorem clim_explicit (objs : List Rat) (a b : Rat) :
+    clim objs (some a) (some b) = .ok (a, b) ∧
+    (∀ hi, maxL objs = some hi → clim objs (some a) none = .ok (a, hi)) ∧
+    (∀ lo, minL objs = some lo → clim objs none (some b) = .ok (lo, b)) := by
+  refine ⟨by simp [clim], ?_, ?_⟩
+  · intro hi h; simp [clim, h]
+  · intro lo h; simp [clim, h]
+
+/-! ## 2-D CVT heat-map: the colour assignment (polygon geometry is not modelled) -/
+
+theorem widen_contains (p : Rat × Rat) (h : p.1 ≤ p.2) :
+    (widen p).1 ≤ p.1 ∧ p.2 ≤ (widen p).2 ∧ (p.1 < p.2 → widen p = p) ∧ (widen p).1 < (widen p).2 := by
+  unfold widen
+  by_cases he : p.1 = p.2
+  · simp only [he, if_true]
+    refine ⟨by linarith, by linarith, fun hlt => absurd hlt (lt_irrefl _), by linarith⟩
+  · simp only [he, if_false]
+    exact ⟨le_refl _, le_refl _, by simp, lt_of_le_of_ne h he⟩
+
+/-- partial clause, modelled part: the face-colour parameter of the polygon of centroid `i`
+is the normalised objective of the elite stored at centroid `i`, and the polygon is blank
+(transparent) iff that cell is empty -/
+theorem cvt2_cell_colour (cells : Nat) (es : List Elite) (vmin vmax : Option Rat)
+    (cs : List (Option Rat)) (cl : Rat × Rat) (hd : Distinct es)
+    (h : cvt2Cells cells es vmin vmax = .ok (cs, cl)) :
+    cs.length = cells ∧
+    (∀ i, i < cells → cs[i]? = some ((cellObj es i).map (fun o => clip01 ((o - cl.1) / (cl.2 - cl.1))))) ∧
+    (∀ i, i < cells → (cs[i]? = some none ↔ ∀ e ∈ es, e.index ≠ i)) := by
+  unfold cvt2Cells at h
+  cases hc : clim ((es.filter (fun e => decide (e.index < cells))).map (·.obj)) vmin vmax with
+  | error e => simp [hc] at h
+  | ok cl' =>
+    simp only [hc, Except.ok.injEq, Prod.mk.injEq] at h
+    obtain ⟨rfl, rfl⟩ := h
+    have hcell : ∀ i, lastObj es i = cellObj es i := by
+      intro i
+      unfold lastObj
+      apply lastBy_eq_cellObj _ _ _ hd
+      intro e _
+      simp
+    have hget : ∀ i, i < cells →
+        ((List.range cells).map (fun i => (lastObj es i).map
+          (fun o => clip01 ((o - (widen cl').1) / ((widen cl').2 - (widen cl').1)))))[i]?
+        = some ((cellObj es i).map
+          (fun o => clip01 ((o - (widen cl').1) / ((widen cl').2 - (widen cl').1)))) := by
+      intro i hi
+      rw [List.getElem?_map, getElem?_range_if]
+      simp [hi, hcell]
+    refine ⟨by simp, hget, ?_⟩
+    intro i hi
+    rw [hget i hi]
+    simp only [Option.some.injEq, Option.map_eq_none_iff]
+    exact cellObj_none_iff es i
+
+/-! ## T20.6 on the 1-D path: `np.nanmin / np.nanmax` over the drawn cells is the range of the
+stored objectives -/
+
+theorem cellObj_some_mem (es : List Elite) (i : Nat) (o : Rat) (h : cellObj es i = some o) :
+    ∃ e ∈ es, e.obj = o := by
+  unfold cellObj at h
+  cases hf : es.find? (fun e => e.index == i) with
+  | none => simp [hf] at h
+  | some e =>
+    simp only [hf, Option.map_some, Option.some.injEq] at h
+    exact ⟨e, List.mem_of_find?_eq_some hf, h⟩
+
+theorem cells_mem_iff (es : List Elite) (hd : Distinct es) (cells : List (Option Rat))
+    (h1 : ∀ (p : Nat) (v : Option Rat), cells[p]? = some v → ∃ i, v = cellObj es i)
+    (h2 : ∀ e ∈ es, ∃ p : Nat, cells[p]? = some (cellObj es e.index)) (o : Rat) :
+    o ∈ cells.filterMap id ↔ ∃ e ∈ es, e.obj = o := by
+  rw [List.mem_filterMap]
+  constructor
+  · rintro ⟨v, hv, hvo⟩
+    obtain ⟨p, hp⟩ := List.mem_iff_getElem?.mp hv
+    obtain ⟨i, hi⟩ := h1 p v hp
+    simp only [id] at hvo
+    rw [hvo] at hi
+    exact cellObj_some_mem es i o hi.symm
+  · rintro ⟨e, he, heo⟩
+    obtain ⟨p, hp⟩ := h2 e he
+    refine ⟨cellObj es e.index, List.mem_of_getElem? hp, ?_⟩
+    rw [cellObj_some_of_mem es hd e he, heo]
+    rfl
+
+/-- default limits of a 1-D heat-map whose drawn cells enumerate the stored elites: they
+contain every stored objective and both are attained -/
+theorem heatmap1d_clim (es : List Elite) (hd : Distinct es) (edges : List Rat)
+    (cells : List (Option Rat))
+    (h1 : ∀ (p : Nat) (v : Option Rat), cells[p]? = some v → ∃ i, v = cellObj es i)
+    (h2 : ∀ e ∈ es, ∃ p : Nat, cells[p]? = some (cellObj es e.index))
+    (hm : Heatmap) (h : heatmap1d edges cells none none = .ok hm) :
+    hm.colors = [cells] ∧ hm.xEdges = edges ∧ hm.yEdges = [0, 1] ∧
+    (∀ e ∈ es, hm.clim.1 ≤ e.obj ∧ e.obj ≤ hm.clim.2) ∧
+    (∃ e ∈ es, e.obj = hm.clim.1) ∧ (∃ e ∈ es, e.obj = hm.clim.2) := by
+  unfold heatmap1d at h
+  cases hc : clim (cells.filterMap id) none none with
+  | error e => rw [hc] at h; simp at h
+  | ok cl =>
+    obtain ⟨lo, hi⟩ := cl
+    rw [hc] at h
+    simp only [Except.ok.injEq] at h
+    subst h
+    have hiff := cells_mem_iff es hd cells h1 h2
+    obtain ⟨hmin, hmax⟩ := clim_default _ lo hi hc
+    refine ⟨rfl, rfl, rfl, ?_, ?_, ?_⟩
+    · intro e he
+      exact clim_contains _ lo hi hc e.obj ((hiff e.obj).mpr ⟨e, he, rfl⟩)
+    · exact (hiff lo).mp (minL_spec _ lo hmin).1
+    · exact (hiff hi).mp (maxL_spec _ hi hmax).1
+
+/-- T20.6 for the 1-D grid heat-map -/
+theorem grid1d_clim (d : Nat) (b0 : List Rat) (es : List Elite) (hd : Distinct es)
+    (hr : ∀ e ∈ es, e.index < d) (hm : Heatmap) (h : gridHeatmap1 d b0 es none none = .ok hm) :
+    hm.colors = [grid1dColors d es] ∧ hm.xEdges = b0 ∧
+    (∀ e ∈ es, hm.clim.1 ≤ e.obj ∧ e.obj ≤ hm.clim.2) ∧
+    (∃ e ∈ es, e.obj = hm.clim.1) ∧ (∃ e ∈ es, e.obj = hm.clim.2) := by
+  unfold gridHeatmap1 at h
+  split at h
+  · simp at h
+  · have := heatmap1d_clim es hd b0 (grid1dColors d es) ?_ ?_ hm h
+    · exact ⟨this.1, this.2.1, this.2.2.2⟩
+    · intro p v hp
+      have hlt : p < d := by
+        have := getElem?_lt _ _ _ hp
+        simpa [grid1dColors] using this
+      rw [grid1d_cell_colour d es hd p hlt] at hp
+      exact ⟨p, (Option.some.inj hp).symm⟩
+    · intro e he
+      exact ⟨e.index, grid1d_cell_colour d es hd e.index (hr e he)⟩
+
+/-- T20.6 for the 1-D CVT heat-map -/
+theorem cvt1d_clim (lo hi : Rat) (cs : List Rat) (es : List Elite) (hd : Distinct es)
+    (hr : ∀ e ∈ es, e.index < cs.length) (hm : Heatmap)
+    (h : cvtHeatmap1 lo hi cs es none none = .ok hm) :
+    hm.colors = [cvt1dColors cs es] ∧ hm.xEdges = cvtEdges lo hi cs ∧
+    (∀ e ∈ es, hm.clim.1 ≤ e.obj ∧ e.obj ≤ hm.clim.2) ∧
+    (∃ e ∈ es, e.obj = hm.clim.1) ∧ (∃ e ∈ es, e.obj = hm.clim.2) := by
+  unfold cvtHeatmap1 at h
+  split at h
+  · simp at h
+  · have := heatmap1d_clim es hd (cvtEdges lo hi cs) (cvt1dColors cs es) ?_ ?_ hm h
+    · exact ⟨this.1, this.2.1, this.2.2.2⟩
+    · intro p v hp
+      have hlt : p < cs.length := by
+        have := getElem?_lt _ _ _ hp
+        simpa [cvt1dColors] using this
+      have hlt' : p < (sortIdx cs).length := by rw [sortIdx_length]; exact hlt
+      have hi' : (sortIdx cs)[p]? = some (sortIdx cs)[p] := List.getElem?_eq_getElem hlt'
+      rw [cvt1d_cell_colour cs es hd hr p _ hi'] at hp
+      exact ⟨_, (Option.some.inj hp).symm⟩
+    · intro e he
+      exact ⟨invIdx (sortIdx cs) e.index,
+        cvt1d_cell_colour cs es hd hr _ e.index (sortIdx_inv cs e.index (hr e he))⟩
+
+/-- the 2-D grid heat-map hands `pcolormesh` exactly `gridColors`, `gridEdges` and the limits
+of the stored objectives -/
+theorem gridHeatmap2_fields (dims : Nat × Nat) (b0 b1 : List Rat) (es : List Elite) (tr : Bool)
+    (vmin vmax : Option Rat) (hm : Heatmap) (h : gridHeatmap2 dims b0 b1 es tr vmin vmax = .ok hm) :
+    hm.colors = gridColors dims es tr ∧ (hm.xEdges, hm.yEdges) = gridEdges b0 b1 tr ∧
+    clim (es.map (·.obj)) vmin vmax = .ok hm.clim := by
+  unfold gridHeatmap2 at h
+  split at h
+  · simp at h
+  · cases hc : clim (es.map (·.obj)) vmin vmax with
+    | error e => simp [hc] at h
+    | ok cl =>
+      simp only [hc, Except.ok.injEq] at h
+      subst h
+      exact ⟨rfl, rfl, rfl⟩
+
+/-! ## non-vacuity: concrete archives satisfying the hypotheses, evaluated by the kernel -/
+
+def exElites : List Elite := [⟨0, 1 / 2, [0, 0]⟩, ⟨5, -3, [1, 1]⟩]
+
+/-- a 2 × 3 grid archive holding two elites: the hypotheses of T20.1 / T20.2 hold and the
+colour matrices are the expected ones (index 5 unravels to grid index (1, 2)); a 1-D grid
+with exactly one elite (D22) -/
+theorem nonvacuous_grid :
+    exElites.Pairwise (fun a b => a.index ≠ b.index) ∧ (∀ e ∈ exElites, e.index < 2 * 3) ∧
+    unravel [2, 3] 5 = [1, 2] ∧
+    gridColors (2, 3) exElites false = [[some (1 / 2), none], [none, none], [none, some (-3)]] ∧
+    gridColors (2, 3) exElites true = [[some (1 / 2), none, none], [none, none, some (-3)]] ∧
+    grid1dColors 3 [⟨1, 4, [1]⟩] = [none, some 4, none] ∧
+    gridHeatmap [2, 3] [[0, 1 / 2, 1], [0, 1, 2, 3]] exElites true none none
+      = .ok ⟨[[some (1 / 2), none, none], [none, none, some (-3)]], [0, 1, 2, 3], [0, 1 / 2, 1],
+             (-3, 1 / 2)⟩ := by
+  decide +kernel
+
+/-- three shuffled centroids: `argsort`, its inverse, the cell edges and the cell colours -/
+theorem nonvacuous_cvt1d :
+    sortIdx [3 / 4, 1 / 4, 1 / 2] = [1, 2, 0] ∧
+    (List.range 3).map (invIdx (sortIdx [3 / 4, 1 / 4, 1 / 2])) = [2, 0, 1] ∧
+    sortedCentroids [3 / 4, 1 / 4, 1 / 2] = [1 / 4, 1 / 2, 3 / 4] ∧
+    cvtEdges 0 1 [3 / 4, 1 / 4, 1 / 2] = [0, 3 / 8, 5 / 8, 1] ∧
+    cvt1dColors [3 / 4, 1 / 4, 1 / 2] [⟨0, 1, [3 / 4]⟩, ⟨2, 5, [1 / 2]⟩] = [none, some 5, some 1] ∧
+    cvt2Cells 3 [⟨0, 1, []⟩, ⟨2, 5, []⟩] none none = .ok ([some 0, none, some 1], (1, 5)) := by
+  decide +kernel
+
+/-- two elites with 3 measures: scatter (transposed), parallel lines (sorted by objective,
+axes 2 and 0) and default colour limits -/
+theorem nonvacuous_scatter_parallel :
+    scatter [⟨0, 1, [3 / 4, 12]⟩, ⟨2, 5, [1 / 2, 11]⟩] true none none
+      = .ok ⟨[(12, 3 / 4), (11, 1 / 2)], [1, 5], (1, 5)⟩ ∧
+    parallelPlot [0, 10, 0] [1, 18, 4] (some [2, 0]) [⟨0, 5, [3 / 4, 12, 1]⟩, ⟨2, 1, [1 / 2, 11, 3]⟩]
+        true (some 0) (some 4)
+      = .ok ([⟨1, 1 / 4, [3, 2]⟩, ⟨5, 1, [1, 3]⟩], (0, 4)) ∧
+    clim [1, 5, -2] none none = .ok (-2, 5) ∧
+    axisFrac 10 18 12 = 1 / 4 := by
+  decide +kernel
+
 end Pyribs.C20
